@@ -2,6 +2,7 @@ package main
 
 import (
 	"bytes"
+	"encoding/json"
 	"fmt"
 	"math/rand"
 	"os"
@@ -129,6 +130,7 @@ func runC16(cs CaseSpec) *CaseResult {
 		res.inconclusive("history too short")
 		return res
 	}
+	ops = withRewrites(rng, ops, res)
 	dir := dagWorkDir(cs)
 	defer os.RemoveAll(dir)
 	cache := int(cs.I("cache", 10))
@@ -436,4 +438,106 @@ func init() {
 		Run:            runC16,
 		PerCaseTimeout: 10 * time.Minute,
 	})
+}
+
+// withRewrites inserts direct, legal re-writes into a recorded sequence: a
+// block stored again with one signature value replaced (the same validator
+// signing again: ECDSA is randomised) or with an equal-sized but different set
+// of signers, an event stored again with grown coordinates, a round stored
+// again. The model is the last successful write in every case.
+func withRewrites(rng *rand.Rand, ops []storeOp, res *CaseResult) []storeOp {
+	out := make([]storeOp, 0, len(ops)+len(ops)/8)
+	var blocks, events []int
+	for i, op := range ops {
+		out = append(out, op)
+		switch op.kind {
+		case "block":
+			blocks = append(blocks, len(out)-1)
+		case "event":
+			events = append(events, len(out)-1)
+		}
+		if i%9 != 8 {
+			continue
+		}
+		switch rng.Intn(3) {
+		case 0:
+			if len(blocks) == 0 {
+				continue
+			}
+			src := out[blocks[rng.Intn(len(blocks))]]
+			// take the latest written version of that block
+			for j := len(out) - 1; j >= 0; j-- {
+				if out[j].kind == "block" && out[j].round == src.round {
+					src = out[j]
+					break
+				}
+			}
+			b := new(hg.Block)
+			if b.Unmarshal(src.raw) != nil || len(b.Signatures) == 0 {
+				continue
+			}
+			keys := []string{}
+			for k := range b.Signatures {
+				keys = append(keys, k)
+			}
+			sort.Strings(keys)
+			k := keys[rng.Intn(len(keys))]
+			if rng.Intn(2) == 0 {
+				b.Signatures[k] = fmt.Sprintf("%x|%x", rng.Int63(), rng.Int63()) // same signer, new value
+				res.count("store_rewrites_block_resigned", 1)
+			} else {
+				delete(b.Signatures, k)
+				b.Signatures[fmt.Sprintf("0X04%062X", rng.Int63())] = fmt.Sprintf("%x|%x", rng.Int63(), rng.Int63()) // equal-sized, other signer
+				res.count("store_rewrites_block_other_signers", 1)
+			}
+			raw, err := b.Marshal()
+			if err != nil {
+				continue
+			}
+			out = append(out, storeOp{kind: "block", round: src.round, raw: raw})
+		case 1:
+			if len(events) == 0 {
+				continue
+			}
+			// re-write one of the recent events with a grown first-descendant map
+			src := out[events[len(events)-1-rng.Intn(minInt(len(events), 20))]]
+			for j := len(out) - 1; j >= 0; j-- {
+				if out[j].kind == "event" && out[j].hash == src.hash {
+					src = out[j]
+					break
+				}
+			}
+			var m map[string]interface{}
+			if json.Unmarshal(src.ev, &m) != nil {
+				continue
+			}
+			fd, _ := m["FirstDescendants"].(map[string]interface{})
+			if fd == nil {
+				fd = map[string]interface{}{}
+			}
+			fd[fmt.Sprintf("0X04%062X", rng.Int63())] = map[string]interface{}{"Hash": "0XABCD", "Index": rng.Intn(100)}
+			m["FirstDescendants"] = fd
+			nb, err := json.Marshal(m)
+			if err != nil {
+				continue
+			}
+			// normalise through the real decoder/encoder
+			nb2, err := evFromDB(nb).MarshalDB()
+			if err != nil {
+				continue
+			}
+			out = append(out, storeOp{kind: "event", ev: nb2, hash: src.hash})
+			res.count("store_rewrites_event_coordinates", 1)
+		default:
+			// a round stored again unchanged
+			for j := len(out) - 1; j >= 0; j-- {
+				if out[j].kind == "round" {
+					out = append(out, out[j])
+					res.count("store_rewrites_round", 1)
+					break
+				}
+			}
+		}
+	}
+	return out
 }
